@@ -1,13 +1,15 @@
 /* C18: the list commands of src/list.c (list_file_basic / list_file_verbose -> list_file_contents ->
  * print_list_headings / print_list_separators / print_columns / print_footers) for ONE column set per harness
- * (-DCMD: 0 = l, 1 = lv, 2 = v, 3 = vv), on one member whose strings are arbitrary bytes.
- * -DMETHOD_PRINTABLE: the 5 method bytes are constrained to 0x20..0x7E (v / vv print them through
- * method_crc_column_print, which is examined with arbitrary bytes by the harness list.method). */
+ * (-DCMD: 0 = l, 1 = lv, 2 = v, 3 = vv), on a member whose strings and method field are arbitrary bytes.
+ * -DNHDR=2 -DSYM_INDEX=1: the arbitrary member is the SECOND of two (the first is a benign regular file). */
 #include "C18/sym_header.h"
 #include "C18/list_env.h"
 
 #ifndef CMD
 #define CMD 0
+#endif
+#ifndef SYM_INDEX
+#define SYM_INDEX 0
 #endif
 
 void harness(void)
@@ -18,10 +20,16 @@ void harness(void)
 	LHAFilter filter;
 	LHAOptions options;
 	unsigned i;
-	SYM_HEADER_FILL(&hdrs[0]);
+	SYM_HEADER_FILL(&hdrs[SYM_INDEX]);
 	SYM_TIME_FILL();
-#ifdef METHOD_PRINTABLE
-	for (i = 0; i < 5; ++i) ASSUME(hmethod[i] >= 0x20 && hmethod[i] <= 0x7e);
+#if SYM_INDEX != 0
+	{
+		static char benign_name[] = "a.txt";
+		static const char benign_method[6] = "-lh5-";
+		hdrs[0].filename = benign_name;
+		for (i = 0; i < 6; ++i) hdrs[0].compress_method[i] = benign_method[i];
+		hdrs[0].length = 10; hdrs[0].compressed_length = 8; hdrs[0].timestamp = 1000000000; hdrs[0].os_type = 'U';
+	}
 #endif
 	ASSUME(quiet <= 2);
 	sym_mtime = mtime; sym_fstat_fails = fstat_fails & 1;
@@ -31,7 +39,7 @@ void harness(void)
 	if (CMD & 2) list_file_verbose(&filter, &options, stdin);
 	else list_file_basic(&filter, &options, stdin);
 	CHECK(out_unprintable == 0, "C18: list output consists of printable ASCII plus the tool's own newlines");
-	CHECK(hdr_served == 1, "the member was listed");
+	CHECK(hdr_served == NHDR, "the member(s) were listed");
 	CHECK(vas_live == 0, "formatted strings are released");
 	if (quiet == 0 && (have_target & 1) && htarget[0] == 0x9b && (have_name & 1) && hname[0] == 0x1b) WITNESS("CSI byte in a link target, ESC in the name, with headings");
 	if (quiet == 2 && !(have_name & 1) && (have_path & 1) && hpath[SL - 1] == 0x7f) WITNESS("DEL in a directory path, quiet listing");
